@@ -1120,6 +1120,20 @@ func (v *Verifier) VerifyFunc(cs *ContractSet, spec *FuncSpec) (res *FuncResult)
 						found = true
 					}
 				}
+				if j := strings.Index(name, "."); j > 0 && !found {
+					// pkg.Lemma: a lemma of another package's contracts
+					for _, ocs := range v.contracts {
+						if ocs.Label != name[:j] {
+							continue
+						}
+						for _, l := range ocs.Lemmas {
+							if l.Name == name[j+1:] {
+								st.assume(v.lemmaTerm(l))
+								found = true
+							}
+						}
+					}
+				}
 				if !found {
 					panic(specErr{msg: "uses: unknown lemma " + name})
 				}
